@@ -88,9 +88,17 @@ def run(r):
     r.trusted += TRUSTED_COMMON + [
         "uiua::verif::check_value (the release-mode validator hook) is the executable form of flags_ok; it is cross-checked against the Coq predicate on exported values on every run",
         "IEEE-754 comparison of doubles = comparison of sign-magnitude bit keys (f_key), as in C15",
+        "the map clause (key table entries distinct, pointing at existing rows, count = row count) is checked by check_value only; it is not in the Coq model (C16 owns the map model)",
+        "validator limit: for a map whose keys are rows without elements an empty key-table cell cannot be told from the key, so check_value's 'two keys on one row / duplicate key' verdict on exactly such maps is skipped and counted (coverage.search.zero_width_key_skips); get/has/insert/remove on such maps are exercised by the regression corpus",
+        "the consumer experiment skips a pair when either run hits the 400 ms execution limit",
     ]
     r.assumptions += ["sortedness is stated with the row order of C15 (value_cmp, proved a total preorder there)",
-                      "the theorems cover the modelled primitives only; every other primitive and all modifiers are covered by the monitor"]
+                      "C05_wf_preserved covers reverse, first, last, fix, deshape, sort, sort-down and couple of equal shape and type; the mark rules of "
+                      "negate, range, classify, transpose, where, floor, ceiling, round, not, absolute value, sign, add, subtract, multiply, divide, minimum, maximum "
+                      "and select are transcribed (current code: fixed = true / cur_ver) and tied on every run, with truthfulness theorems under explicit side "
+                      "conditions (monotone / antitone rows, in-bounds non-negative indices); every other primitive, all modifiers, inverses, fills and maps are "
+                      "covered by the release-mode monitor only",
+                      "wildcard / map-sentinel NaNs are outside the model (wildcard-free data)"]
     if not r.harness(["c05"]):
         return
     r.proofs()
@@ -199,6 +207,7 @@ def run(r):
                             "primitives_in_generator": len(all_prims),
                             "primitives_in_a_completed_program": len(all_prims) - len(never),
                             "primitives_never_completed": never[:60],
+                            "zero_width_key_skips": tot.get("zero_width_key_skips", 0),
                             "regression_inputs_replayed": sum(l.get("regression", 0) for l in lines if "regression" in l),
                             "corpus_chunks": ctot.get("cases", 0), "corpus_chunks_completed": ctot.get("ok", 0),
                             "corpus_values_checked": ctot.get("values", 0),
@@ -209,7 +218,15 @@ def run(r):
              len(set(by_key) | set(by_key_c)), len(skipped) + len(cskipped)))
     r.coverage["evaluations"] = tot.get("cases", 0) + ctot.get("cases", 0) + len(cases) + len(xs)
     r.coverage["distinct_nontrivial"] = tot.get("marked", 0)
-    r.coverage["rule"] = ("programs = 1-3 top-level terms, each a composition (depth <= 2) of all non-system primitives and modifiers "
-                          "(inverses, under, fill included) or a directed family (F after sort / sort-down, dyadic with special scalars, "
-                          "under, un, fill, reduce/scan/rows/table of a dyadic function), applied to 4 generated arrays (all element types, "
-                          "rank 0-3, empty axes, NaN/inf/-0/1e300, maps, pre-sorted marked inputs); non-trivial = checked values that carry a mark")
+    r.coverage["rule"] = ("every search starts by replaying the regression corpus (70 former failing inputs, on the stack and as a bound constant); "
+                          "then case i is one of: (i%12==8) un-/anti-/under- forms of the structural primitives on arrays WITHOUT rows of every type and shape "
+                          "([0],[0 3],[2 0],[0 0],[1 0 2],...) and ordinary ones, with index lists / fills; (i%6==5) structural primitives (select weighted, pick, take, "
+                          "drop, rotate, keep, rerank, orient, windows, reshape; plain, under, rows, reversed) on arrays marked at run time (sort, sort-down, "
+                          "deduplicated sort, range) with monotone index lists MIXING negative and non-negative entries (also unordered, out of bounds, rank 2, scalar), "
+                          "with and without a fill; (i%3==2) F after sort / sort-down, dyadic functions with special scalars (0, -0, +-inf, NaN, 1e300, characters, boxes), "
+                          "under, un, fill, reduce/scan/rows/table/fold/inventory of a dyadic function; otherwise 1-3 top-level terms, each a composition (depth <= 2) of "
+                          "all non-system primitives and modifiers (un, under, fill included), applied to 4 generated arrays (all element types, rank 0-3, empty axes, "
+                          "NaN/inf/-0/1e300, byte arrays with the boolean mark, maps, pre-sorted marked inputs), 1 in 6 as a bound constant; plus every blank-line chunk and "
+                          "whole file of /repo/tests/*.ua.  After each program check_value runs on every stack value and bound constant (deeply: boxes, map keys); a failure "
+                          "is attributed to the shortest failing suffix / single primitive; 14 mark-trusting consumers are applied to the top results and to mark-stripped "
+                          "copies.  non-trivial = checked values that carry a mark")
